@@ -236,6 +236,36 @@ def exception_rule(chk, prog, closure, rule):
                     nfail += 1
                 chk.check(in_try, rule, f.name, 'no throw escapes from a noexcept function', f.loc(x),
                           'std::terminate() instead of an exception; reached via ' + path)
+    # ... nor indirectly: a noexcept function of the repository does not call (outside a try block) a repository
+    # function from which an exception can escape - may-throw is the least fixpoint over the repository functions of
+    # the closure ('contains a throw expression outside try' or 'calls such a function outside try'); library
+    # functions are not considered (std::bad_alloc is outside the statement)
+    def repo(f):
+        return '/src/celma/' in f.file or '/src/library/' in f.file
+
+    def outside_try(f, x):
+        return not any(a.get('k') == 'CXXTryStmt' for a in f.ancestors(x))
+    funcs = {key: f for key, (f, _) in closure.items() if repo(f) and f.body is not None}
+    may = {key for key, f in funcs.items() if not f.d.get('noexcept') and any(
+        x.get('k') == 'CXXThrowExpr' and not x.get('rethrow') and outside_try(f, x) for x in f.walk())}
+    changed = True
+    while changed:
+        changed = False
+        for key, f in funcs.items():
+            if key in may or f.d.get('noexcept'):
+                continue
+            if any(c.get('ckey') in may and outside_try(f, c) for c in f.calls()):
+                may.add(key)
+                changed = True
+    for key, f in sorted(funcs.items()):
+        if not f.d.get('noexcept') or f.short.startswith('~'):
+            continue
+        for c in f.calls():
+            if c.get('ckey') in may and outside_try(f, c):
+                nfail += 1
+                chk.check(False, rule, f.name, 'no exception escapes from a noexcept function', f.loc(c),
+                          'calls %s, which can throw: std::terminate() instead of an exception; reached via %s' % (
+                              (c.get('callee') or '?').split('(')[0][-80:], ' <- '.join(reversed(call_path(closure, key)[-3:]))))
     return nfail
 
 
